@@ -115,3 +115,14 @@ def never_negative(s: "Str", n: "Int") -> "Bool":
 
 def balanced(s):
     return never_negative(s, len(s)) and depth(s, len(s)) == 0
+
+
+def replace_all(s, a, b):
+    """smt-builtin: python str.replace (all occurrences)"""
+    return s.replace(a, b)
+
+
+# ----------------------------------------------------------------------------- tag resolution (C03)
+def next_boundary(w, k):
+    """position of the next '/' after position k, or len(w)"""
+    return len(w) if w.find('/', k + 1) == -1 else w.find('/', k + 1)
